@@ -280,6 +280,7 @@ impl Svc {
         Svc { s, events }
     }
     pub async fn inject(&mut self, ev: HandlerOut) {
+        progress(&event_label(&ev));
         assert!(self.s.inject(ev), "service queue full or closed");
         settle().await;
     }
@@ -598,6 +599,86 @@ pub fn listen_config(mode: u64) -> ListenConfig {
     }
 }
 
+// ------------------------------------------------------------------------------------------------
+// watchdog: a case runs on an OS thread of its own. The service task runs on a current-thread runtime:
+// if it blocks (a parking_lot lock taken twice, an endless loop) nothing on that thread ever runs
+// again, the harness task included, so the wait for a case is bounded in REAL time from outside.
+
+/// real-time bound for one case (a case takes well below a second)
+pub const WATCHDOG_SECS: u64 = 20;
+/// after this many hung cases the rest of the run is skipped
+pub const MAX_HUNG_CASES: u32 = 2;
+
+/// Runs `f` on a fresh thread and waits at most `secs` seconds of real time for its result. `None`:
+/// the thread did not finish (it is left behind, still blocked).
+pub fn run_watched<T: Send + 'static>(secs: u64, f: impl FnOnce() -> T + Send + 'static) -> Option<T> {
+    let (tx, rx) = std::sync::mpsc::channel();
+    let th = std::thread::Builder::new()
+        .name("case".into())
+        .stack_size(64 << 20)
+        .spawn(move || {
+            let _ = tx.send(f());
+        })
+        .expect("spawn case thread");
+    match rx.recv_timeout(std::time::Duration::from_secs(secs)) {
+        Ok(v) => {
+            let _ = th.join();
+            Some(v)
+        }
+        Err(std::sync::mpsc::RecvTimeoutError::Disconnected) => {
+            // the closure panicked outside `catch` (never expected): treat like a hang, nothing is stuck
+            let _ = th.join();
+            None
+        }
+        Err(std::sync::mpsc::RecvTimeoutError::Timeout) => None,
+    }
+}
+
+/// What the running case has done so far (read by the watchdog when the case hangs).
+static PROGRESS: std::sync::Mutex<Vec<String>> = std::sync::Mutex::new(Vec::new());
+static IN_LOOKUP: std::sync::atomic::AtomicBool = std::sync::atomic::AtomicBool::new(false);
+
+pub fn progress_reset() {
+    PROGRESS.lock().unwrap_or_else(|e| e.into_inner()).clear();
+    IN_LOOKUP.store(false, std::sync::atomic::Ordering::SeqCst);
+}
+pub fn progress(what: &str) {
+    PROGRESS.lock().unwrap_or_else(|e| e.into_inner()).push(what.to_string());
+}
+/// a lookup (find_node) of the local node is running / has ended
+pub fn progress_lookup(running: bool) {
+    IN_LOOKUP.store(running, std::sync::atomic::Ordering::SeqCst);
+}
+pub fn progress_snapshot() -> (Vec<String>, bool) {
+    (PROGRESS.lock().unwrap_or_else(|e| e.into_inner()).clone(), IN_LOOKUP.load(std::sync::atomic::Ordering::SeqCst))
+}
+
+fn body_kind_req(b: &RequestBody) -> &'static str {
+    match b {
+        RequestBody::Ping { .. } => "PING",
+        RequestBody::FindNode { .. } => "FINDNODE",
+        RequestBody::Talk { .. } => "TALKREQ",
+    }
+}
+fn body_kind_resp(b: &ResponseBody) -> &'static str {
+    match b {
+        ResponseBody::Pong { .. } => "PONG",
+        ResponseBody::Nodes { .. } => "NODES",
+        ResponseBody::Talk { .. } => "TALKRESP",
+    }
+}
+fn event_label(ev: &HandlerOut) -> String {
+    match ev {
+        HandlerOut::Established(e, s, d) => format!("inject Established(node {}, seq {}, {}, {:?})", hex::encode(&e.node_id().raw()[..4]), e.seq(), s, d),
+        HandlerOut::Request(a, r) => format!("inject Request {}: from {}: {}", body_kind_req(&r.body), a, r.body),
+        HandlerOut::Response(a, r) => format!("inject Response {}: from {}: {}", body_kind_resp(&r.body), a, r.body),
+        HandlerOut::WhoAreYou(r) => format!("inject WhoAreYou({})", r.0),
+        HandlerOut::RequestFailed(id, e) => format!("inject RequestFailed({}, {:?})", id, e),
+        HandlerOut::UnverifiableEnr { node_id, .. } => format!("inject UnverifiableEnr(node {})", hex::encode(&node_id.raw()[..4])),
+        _ => "inject (other event)".to_string(),
+    }
+}
+
 pub static FORCE_IP_LIMIT: std::sync::atomic::AtomicBool = std::sync::atomic::AtomicBool::new(false);
 
 pub fn base_config(mode: u64) -> ConfigBuilder {
@@ -650,10 +731,11 @@ pub fn main(args: &[String]) {
         FORCE_IP_LIMIT.store(true, std::sync::atomic::Ordering::SeqCst);
         focus = "c12".to_string();
     }
-    let idents = make_idents(if focus == "c12" { 96 } else { 640 });
+    // the identities live as long as the process: each case runs on a thread of its own (see `run_watched`)
+    let idents: &'static [Ident] = Box::leak(make_idents(if focus == "c12" { 96 } else { 640 }).into_boxed_slice());
     if focus == "c14margin" {
         // experiment, not a check: see c14::margin_experiment
-        c14::margin_experiment(&idents);
+        c14::margin_experiment(idents);
         return;
     }
     let mut sum = Summary::new(&format!("service/{}", focus));
@@ -669,23 +751,71 @@ pub fn main(args: &[String]) {
         Some(x) => vec![x],
         None => (0..o.cases).collect(),
     };
+    let mut hung = 0u32;
     for idx in range {
-        let mut rng = case_rng(o.seed, idx);
-        let res = catch(std::panic::AssertUnwindSafe(|| match focus.as_str() {
-            "c11" => c11::run_case(&idents, idx, &mut rng, o.thorough, &mut sum.hist),
-            "c12" => c12::run_case(&idents, idx, &mut rng, o.thorough, &mut sum.hist),
-            _ => c14::run_case(&idents, idx, &mut rng, o.thorough, &mut sum.hist),
-        }));
-        let r = match res {
-            Ok(r) => r,
-            Err(m) => CaseResult {
-                coq: None,
-                failures: vec![(focus.to_uppercase(), format!("panic while running the case: {}", m))],
-                nontrivial: false,
-                canon: 0,
-                steps: 0,
-                sample: J::Null,
-            },
+        if hung >= MAX_HUNG_CASES {
+            // every hung case costs WATCHDOG_SECS of real time and leaks a thread: the failure has been
+            // reported, the rest of the run is skipped
+            sum.hist.add("watchdog:case_skipped_after_hangs");
+            continue;
+        }
+        progress_reset();
+        let (seed, thorough, fc) = (o.seed, o.thorough, focus.clone());
+        let watched = run_watched(WATCHDOG_SECS, move || {
+            let mut rng = case_rng(seed, idx);
+            let mut hist = Hist::default();
+            let res = catch(std::panic::AssertUnwindSafe(|| match fc.as_str() {
+                "c11" => c11::run_case(idents, idx, &mut rng, thorough, &mut hist),
+                "c12" => c12::run_case(idents, idx, &mut rng, thorough, &mut hist),
+                _ => c14::run_case(idents, idx, &mut rng, thorough, &mut hist),
+            }));
+            (res, hist)
+        });
+        let r = match watched {
+            Some((res, hist)) => {
+                for (k, v) in hist.0 {
+                    sum.hist.addn(&k, v);
+                }
+                match res {
+                    Ok(r) => r,
+                    Err(m) => CaseResult {
+                        coq: None,
+                        failures: vec![(focus.to_uppercase(), format!("panic while running the case: {}", m))],
+                        nontrivial: false,
+                        canon: 0,
+                        steps: 0,
+                        sample: J::Null,
+                    },
+                }
+            }
+            None => {
+                // the case did not come back: the service task blocks the only thread of its runtime
+                // (e.g. it waits for a lock it holds itself); the stuck thread is left behind
+                hung += 1;
+                sum.hist.add("watchdog:case_hung");
+                let (log, in_lookup) = progress_snapshot();
+                // (the text names the kind of the last event only: one signature per kind; the events
+                // themselves are in the replay file)
+                let last = log.iter().rev().find(|l| l.starts_with("inject ")).map(|l| l.split(|c| c == '(' || c == ':').next().unwrap_or("").trim().to_string());
+                let what = format!(
+                    "the service task hung: the event loop did not return within {} s of real time (a deadlock blocks the only thread of its runtime); last event handed to it: {}",
+                    WATCHDOG_SECS,
+                    last.unwrap_or_else(|| "none (service start)".into())
+                );
+                let mut failures = vec![(focus.to_uppercase(), what.clone())];
+                if in_lookup {
+                    // C09: every lookup terminates and hands its result to the caller
+                    failures.push(("C09".into(), format!("a lookup never terminates: {}", what)));
+                }
+                CaseResult {
+                    coq: None,
+                    failures,
+                    nontrivial: false,
+                    canon: 0,
+                    steps: log.len(),
+                    sample: J::obj(vec![("case", J::I(idx as i64)), ("steps_and_events_before_the_hang", J::A(log.into_iter().map(J::s).collect()))]),
+                }
+            }
         };
         sum.evaluations += 1;
         sum.steps += r.steps as u64;
